@@ -1,4 +1,7 @@
 """C10 — invalid input is refused with a 4xx before any handler runs."""
+import json
+import re
+
 from .lib import (PLUMBING, callee_allow, callers, closure_args_of_call, const_int, operand_local, status_const_of_ctor, try_edges)
 from .lib_c10 import (MEMBER_FROM_REQUEST, TOP_FROM_REQUEST, closure_site, extraction_region, generic_route_handler, impl_fns,
                       load_panic_table, norm_id, panic_sites, result_guards, tuple_arity, upvar_fields, upvar_origin, upvar_params)
@@ -43,7 +46,7 @@ ANY_CTOR = r"^error::HttpError::for_\w+$"
 # ------------------------------------------------------------------------------------------------ R1
 def r1_short_circuit(ctx):
     R = ctx.rule("C10.R1", "the single call of HttpHandlerFunc::handle_request is dominated by the Continue edge of `?` on RequestExtractor::from_request(&rqctx, request).await, "
-                 "its parameter tuple is that edge's payload, and the Break edge reaches no handler call", floor=9)
+                 "its parameter tuple is that edge's payload, and the Break edge reaches no handler call", floor=10)
     ds = ctx.ds
     sites = callers(ds, r"handler::HttpHandlerFunc::handle_request$")
     top, hb = generic_route_handler(ctx, R)
@@ -202,7 +205,7 @@ def _check_try_join(ctx, R, key, body, cl, members):
 
 def r2_tuples(ctx):
     R = ctx.rule("C10.R2", "each tuple impl of RequestExtractor calls one member from_request per position with this invocation's rqctx/request, and the Result it returns "
-                 "derives from every member's result through error-preserving operations only (no member error is dropped or replaced)", floor=11)
+                 "derives from every member's result through error-preserving operations only (no member error is dropped or replaced)", floor=21)
     ds = ctx.ds
     impls = impl_fns(ds, r"^extractor::common::RequestExtractor$", "from_request")
     ctx.check(R, "tuple-impls", len(impls) >= 4, "RequestExtractor is implemented for %s" % [i["self"] for i, _ in impls], None, nontrivial=False)
@@ -268,7 +271,7 @@ def r2_tuples(ctx):
 # ------------------------------------------------------------------------------------------------ R3
 def r3_error_class(ctx):
     R = ctx.rule("C10.R3", "every HttpError built in the extraction region comes from for_bad_request / for_client_error* (status typed ClientErrorStatusCode, evaluated 4xx); "
-                 "never for_internal_error, for_unavail, for_not_found or a struct literal", floor=20)
+                 "never for_internal_error, for_unavail, for_not_found or a struct literal", floor=15)
     ds = ctx.ds
     info = extraction_region(ctx, R)
     reg = info["region"]
@@ -282,8 +285,7 @@ def r3_error_class(ctx):
         for bb, t in f.live_calls(ANY_CTOR):
             n += 1
             c = t["callee"]
-            import re as _re
-            ok = bool(_re.search(CLIENT_CTORS, c))
+            ok = bool(re.search(CLIENT_CTORS, c))
             detail = c
             if ok and not c.endswith("for_bad_request"):
                 # status operand: an evaluated 4xx constant, or the caller's own ClientErrorStatusCode parameter
@@ -295,8 +297,7 @@ def r3_error_class(ctx):
                     ints = []
                     for a in vals:
                         try:
-                            import json as _json
-                            d = _json.loads(a[2])
+                            d = json.loads(a[2])
                             if isinstance(d, dict) and "int" in d:
                                 ints.append(d["int"])
                         except Exception:
@@ -346,7 +347,7 @@ def r3_error_class(ctx):
 # ------------------------------------------------------------------------------------------------ R4
 def r4_panic_census(ctx):
     R = ctx.rule("C10.R4", "every potential panic site in the extraction region (explicit panics, unwrap/expect, indexing, listed panicking APIs, MIR Assert terminators) "
-                 "is on tables/c10_panics.txt with a reason; key = (function, kind, callee-or-assert-kind) with multiplicity", floor=10)
+                 "is on tables/c10_panics.txt with a reason; key = (function, kind, callee-or-assert-kind) with multiplicity", floor=8)
     ds = ctx.ds
     info = extraction_region(ctx, R)
     table, bad = load_panic_table()
@@ -390,7 +391,7 @@ URL_PARSER = r"form_urlencoded::parse$|serde_urlencoded::(from_bytes|from_str|fr
 
 def r5_content_type_gate(ctx):
     R = ctx.rule("C10.R5", "for every pair (endpoint's expected content type, request's content type) a TypedBody is built only for (Json,Json) via the JSON parser and "
-                 "(UrlEncoded,UrlEncoded) via the urlencoded parser; every other pair returns an error", floor=17)
+                 "(UrlEncoded,UrlEncoded) via the urlencoded parser; every other pair returns an error", floor=21)
     ds = ctx.ds
     top = ctx.need_fn(ds, R, r"^extractor::body::http_request_load_body$")
     f = ds.body_of(top)
